@@ -7,11 +7,6 @@ Specifications of the system-key half of envelope.go: `generateKey`, `systemKeyF
 set_option linter.unusedVariables false
 namespace AsherahVerif.Env
 
-/-- the creation stamp a key generated now would get is not the "latest" marker 0. -/
-def TimeOK (x : Ctx) (w : World) : Prop := keyTimestamp w.now x.pol.precision ≠ 0
-
-theorem Stable.timeOK (x : Ctx) : Stable (TimeOK x) := ⟨fun w w' he h => by unfold TimeOK at *; rw [he.now]; exact h⟩
-
 theorem GoodKeyAt.congr {w : World} {m m' : KeyMeta} {o : Nat} (hk : m.kid = m'.kid) (hc : m.created = m'.created)
     (h : GoodKeyAt w m o) : GoodKeyAt w m' o := by
   cases m; cases m'; simp only at hk hc; subst hk; subst hc; exact h
@@ -167,7 +162,7 @@ theorem loadLatestOrCreateSystemKey_spec {a : Nat} {F : Prop} (x : Ctx) :
   intro ro
   apply Spec.pre (P := fun w => TimeOK x w ∧ ∀ r, ro = some r → r ∈ w.store ∧ r.kid = .sk)
     (fun w _ h => ⟨h.1, fun r hr => latestRow_some (hr ▸ h.2).symm⟩)
-  apply Spec.bind_frame Spec.get (fun _ _ _ => trivial) (by stable_auto [Stable.timeOK])
+  apply Spec.bind_frame Spec.get (fun _ _ _ => trivial) (by stable_auto)
   intro w0
   split
   · rename_i r
